@@ -277,10 +277,10 @@ func show(c Case) string {
 // ---- generator -----------------------------------------------------------------
 
 var hdrNames = []string{"X-Api", "x-api", "Accept", "User-Agent", "X-B"}
-var hdrExprs = []string{"", "^v1$", "Caddy", "[0-9]+", "^(a|b)$", "^[0-9a-f]+$", "(?i)^caddy", "a$", "^[a-z0-9/ ]*$"}
+var hdrExprs = []string{"", "^v1$", "Caddy", "[0-9]+", "^(a|b)$", "^[0-9a-f]+$", "(?i)^caddy", "a$", "^[a-z0-9/ ]*$", "/v1/"}
 var hdrVals = []string{"v1", "v12", "Caddy/2", "x", "7", "a", "", "ab", "CADDY", "deadbeef", "7a", "V1", "A", "B", "caddy",
 	// the spelling of an expression is a value like any other
-	"^v1$", "[0-9]+", "^(a|b)$", "a$", "x^[0-9a-f]+$"}
+	"^v1$", "[0-9]+", "^(a|b)$", "a$", "x^[0-9a-f]+$", "/v1/", "a/v1/b"}
 
 // hdrValue draws a header value: mostly from the pool, sometimes a very long
 // one (4..9 KB, beyond any buffer a matcher might use) whose verdict may hinge
